@@ -14,8 +14,7 @@ import pysam
 from io import StringIO
 
 from .common import get_path_to_program
-from .gtf2db import convert_db_to_gtf, db2bed
-from .file_utils import dump_json_atomically
+from .gtf2db import convert_db_to_gtf, db2bed, dump_json_atomically
 from .input_data_storage import SampleData
 
 logger = logging.getLogger('IsoQuant')
